@@ -131,42 +131,65 @@ def malformed_cases(ctx, start):
 
 def live_cases(ctx):
     """the live session: the peer's OPEN arrives in OpenSent, or in Active with the DelayOpen timer running (two copies of the
-    derivation in Session::handle_event); every direction combination of two families x local ADD-PATH list x capability 65"""
+    derivation in Session::handle_event); every direction combination of two families x local ADD-PATH list x capability 65.
+    Then the same Session negotiating a second time: the connection fails, a new stream is attached (Session::attach_stream) and
+    the peer's OPEN now says something else - what the new connection decodes with follows from the OPENs of the new connection"""
     rng = core.SplitMix(ctx.seed + 77)
     MARKER = b'\xff' * 16
+    DIRS = {0: '-', 1: '2', 2: '1', 3: '3'}
+
+    def mk_open(d1, d2, d3, four):
+        ent = [(f, d) for f, d in (((1, 1), d1), ((2, 1), d2), ((1, 2), d3)) if d]
+        if rng.chance(1, 2):
+            ent.reverse()
+        caps = []
+        if four:
+            caps.append(bytes([65, 4]) + struct.pack('>I', 65001))
+        if ent:
+            if len(ent) > 1 and rng.chance(1, 3):
+                for f, dd in ent:
+                    caps.append(bytes([69, 4]) + struct.pack('>HBB', f[0], f[1], dd))
+            else:
+                v = b''.join(struct.pack('>HBB', f[0], f[1], dd) for f, dd in ent)
+                caps.append(bytes([69, len(v)]) + v)
+        if rng.chance(1, 2):
+            caps.reverse()
+        pv = b''.join(caps)
+        pb = bytes([2, len(pv)]) + pv if caps else b''
+        body = bytes([4]) + struct.pack('>HH', 65001, 90) + bytes([10, 0, 0, 2, len(pb)]) + pb
+        return MARKER + struct.pack('>HB', 19 + len(body), 1) + body, {'1.1': d1, '2.1': d2, '1.2': d3}
+
+    def expect(local, peer, four):
+        loc = [] if local == '-' else local.split(',')
+        shown = sorted(set(loc + ['1.1', '2.1', '1.2']))
+        return '%d/%s' % (four, ','.join('%s:%s' % (f, DIRS[peer[f]] if f in loc else '-') for f in shown))
+
     out = []
     for delay in (0, 1):
         for local in ('-', '1.1', '2.1', '1.1,2.1', '1.1,1.2,2.1'):
             for d1 in range(4):
                 for d2 in range(4):
                     for four in (0, 1):
-                        d3 = rng.below(4)
-                        ent = [(f, d) for f, d in (((1, 1), d1), ((2, 1), d2), ((1, 2), d3)) if d]
-                        if rng.chance(1, 2):
-                            ent.reverse()
-                        caps = []
-                        if four:
-                            caps.append(bytes([65, 4]) + struct.pack('>I', 65001))
-                        if ent:
-                            if len(ent) > 1 and rng.chance(1, 3):
-                                for f, dd in ent:
-                                    caps.append(bytes([69, 4]) + struct.pack('>HBB', f[0], f[1], dd))
-                            else:
-                                v = b''.join(struct.pack('>HBB', f[0], f[1], dd) for f, dd in ent)
-                                caps.append(bytes([69, len(v)]) + v)
-                        if rng.chance(1, 2):
-                            caps.reverse()
-                        pv = b''.join(caps)
-                        pb = bytes([2, len(pv)]) + pv if caps else b''
-                        body = bytes([4]) + struct.pack('>HH', 65001, 90) + bytes([10, 0, 0, 2, len(pb)]) + pb
-                        msg = MARKER + struct.pack('>HB', 19 + len(body), 1) + body
-                        peer = {'1.1': d1, '2.1': d2, '1.2': d3}
-                        loc = [] if local == '-' else local.split(',')
-                        shown = sorted(set(loc + ['1.1', '2.1', '1.2']))
-                        exp = '%d/%s' % (four, ','.join('%s:%s' % (f, {0: '-', 1: '2', 2: '1', 3: '3'}[peer[f]] if f in loc else '-') for f in shown))
+                        msg, peer = mk_open(d1, d2, rng.below(4), four)
                         out.append({'line': 'FSM %d %d 90 %s e:ManualStartWithPassiveTcpEstablishment;e:TcpConnectionConfirmed;m:%s'
-                                            % (len(out), delay, local, msg.hex()), 'exp': exp,
+                                            % (len(out), delay, local, msg.hex()), 'exp': expect(local, peer, four), 'opens': 1,
                                     'desc': {'delay_open': delay, 'local': local, 'peer': peer, 'four': four}})
+    # a second (and third) negotiation on the same Session
+    for delay in (0, 1):
+        for local in ('1.1', '1.1,2.1', '1.1,1.2,2.1'):
+            for _ in range(40 if ctx.tier == 'quick' else 400):
+                steps = ['e:ManualStartWithPassiveTcpEstablishment', 'e:TcpConnectionConfirmed']
+                n_conn = rng.choice([2, 2, 3])
+                for k in range(n_conn):
+                    four = rng.below(2)
+                    msg, peer = mk_open(rng.below(4), rng.below(4), rng.below(4), four)
+                    if k:
+                        # how the previous connection ended: before or after the session was established
+                        steps += rng.choice([['e:TcpConnectionFails'], ['e:KeepaliveMsg', 'e:TcpConnectionFails'], ['e:KeepaliveMsg', 'e:ManualStop']])
+                        steps += ['e:ManualStartWithPassiveTcpEstablishment', 'A:%s' % msg.hex()]
+                    steps.append('m:%s' % msg.hex())
+                out.append({'line': 'FSM %d %d 90 %s %s' % (len(out), delay, local, ';'.join(steps)), 'exp': expect(local, peer, four),
+                            'opens': n_conn, 'desc': {'delay_open': delay, 'local': local, 'connections': n_conn, 'peer': peer, 'four': four}})
     return out
 
 
@@ -193,14 +216,14 @@ def run_live(ctx, d):
         loc = [] if c['desc']['local'] == '-' else c['desc']['local'].split(',')
         if 'PANIC' in l:
             ctx.violation('the live session panicked on an OPEN', case=c['desc'], impl=last[:200], line=c['line'][:400])
-        elif len(sent) != 1:
-            ctx.violation('live session: expected exactly one OPEN to be sent', case=c['desc'], impl=l[:300], line=c['line'][:400])
-        elif sorted(x for x in sent[0][1].split(',') if x) != sorted('%s:3' % f for f in loc):
+        elif len(sent) != c['opens']:
+            ctx.violation('live session: expected exactly one OPEN to be sent per connection', case=c['desc'], impl=l[:300], line=c['line'][:400])
+        elif any(sorted(x for x in sn[1].split(',') if x) != sorted('%s:3' % f for f in loc) for sn in sent):
             ctx.violation('live session: the OPEN sent does not advertise ADD-PATH send+receive for exactly the configured families',
                           case=c['desc'], impl=l[:300], line=c['line'][:400])
-        elif cfg != '?' and cfg.split('/')[0] != str(int(sent[0][0] == '1' and c['desc']['four'] == 1)):
+        elif cfg != '?' and cfg.split('/')[0] != str(int(sent[-1][0] == '1' and c['desc']['four'] == 1)):
             ctx.violation('live session: four-octet decoding is not enabled exactly when both OPENs carry the capability (sent OPEN: %s, peer OPEN: %d)'
-                          % (sent[0][0], c['desc']['four']), case=c['desc'], impl=last[:200], line=c['line'][:400])
+                          % (sent[-1][0], c['desc']['four']), case=c['desc'], impl=last[:200], line=c['line'][:400])
         elif st != 'OpenConfirm' or cfg != c['exp']:
             ctx.violation('live session: the configuration the connection decodes with differs from the RFC 7911 / capability-65 rule',
                           case=c['desc'], expected='OpenConfirm ' + c['exp'], impl=last[:200], line=c['line'][:400])
